@@ -127,7 +127,8 @@ def run_paste(ctx, spec):
         deep = it == spec['n']
         if deep:
             # one id through > 700 incarnations: labels with every letter, z, az, za, zz ...
-            st = streams.build(rng, cands, k=1, n_each=2400, tagged=True, opts={'hot': 1.0, 'reuse_bias': 1.0, 'prompt_delete': 1.0, 'first': 'get_registry'})
+            st = streams.build(rng, cands, k=1, n_each=13400 if ctx.tier == 'quick' else 100500, tagged=True,
+                               opts={'hot': 1.0, 'reuse_bias': 1.0, 'prompt_delete': 1.0, 'first': 'get_registry', 'big_gaps': 0.0})
         else:
             st = streams.build(rng, cands, k=k, n_each=(40, 220), tagged=True, opts={'hot': rng.choice([0.3, 0.6, 0.08]), 'tie_prefix': rng.choice([0, 0, 8, 30])})
         s, probs = objcheck.run_stream(ctx, st, want=('C02', 'C03', 'C04'))
@@ -158,7 +159,8 @@ def run_paste(ctx, spec):
         order = sorted(labels, key=lambda x: (-depth[(x[0], x[1])], rng.random()))
         if deep:
             zs = [x for x in labels if 'z' in history.letters(x[2])]
-            order = rng.sample(zs, min(45, len(zs))) + order[:15]
+            deepest = sorted(labels, key=lambda x: -x[2])[:12]      # the latest incarnations: labels like 5fen
+            order = deepest + rng.sample(zs, min(45, len(zs))) + order[:15]
         for (ci, oid, gen) in order[:60]:
             name = st['names'][ci]
             lab = '%d%s' % (oid, history.letters(gen))
